@@ -355,7 +355,7 @@ msadpcm_read_s	(SF_PRIVATE *psf, short *ptr, sf_count_t len)
 	while (len > 0)
 	{	readcount = (len > 0x10000000) ? 0x10000000 : (int) len ;
 
-		if ((count = (int) msadpcm_read_block (psf, pms, ptr, readcount)) <= 0)
+		if ((count = (int) msadpcm_read_block (psf, pms, ptr + total, readcount)) <= 0)
 			return -1 ;
 
 		total += count ;
@@ -679,7 +679,7 @@ msadpcm_write_s	(SF_PRIVATE *psf, const short *ptr, sf_count_t len)
 	while (len > 0)
 	{	writecount = (len > 0x10000000) ? 0x10000000 : (int) len ;
 
-		count = (int) msadpcm_write_block (psf, pms, ptr, writecount) ;
+		count = (int) msadpcm_write_block (psf, pms, ptr + total, writecount) ;
 
 		total += count ;
 		len -= count ;
